@@ -72,7 +72,6 @@ def showWrap : WrapResult → String
   | .dyn rel => "dyn " ++ encPath rel
   | .missing => "missing"
   | .keep => "keep"
-  | .attrError => "attrerr"
   | .reject => "reject"
   | .mustNotHappen => "mnh"
 
@@ -102,7 +101,7 @@ def step (w : World) (line : String) : World × String :=
     match decMode m, decTarget k v with
     | some m, some t =>
       (w, " | ".intercalate ((refLoop w.mroOf w.exist (chg = "1") m (decPath d) t
-        ((csv subs).map decPath) false).map showDRef))
+        ((csv subs).map decPath)).map showDRef))
     | _, _ => (w, "bad-op")
   | ["check", m, s, d, k, v] =>
     match decMode m, decTarget k v with
